@@ -7,7 +7,7 @@
     exactly the observed messages. *)
 From Coq Require Import List Arith Bool.
 Import ListNotations.
-Require Import Aurora.C28.Model.
+Require Export Aurora.C28.Model.
 
 Record ndump := mkND {
   d_recs : list (list node);              (* Table.paths of the node (items) *)
